@@ -3,3 +3,4 @@ pub mod expect;
 pub mod gen;
 pub mod types;
 pub mod refenc;
+pub mod walk;
